@@ -34,10 +34,14 @@ import (
 	"time"
 
 	corev1 "k8s.io/api/core/v1"
+	apierrors "k8s.io/apimachinery/pkg/api/errors"
 	"k8s.io/apimachinery/pkg/types"
+	"sigs.k8s.io/controller-runtime/pkg/client"
+	"sigs.k8s.io/controller-runtime/pkg/client/interceptor"
 
 	v1 "sigs.k8s.io/karpenter/pkg/apis/v1"
 	"sigs.k8s.io/karpenter/pkg/cloudprovider"
+	"sigs.k8s.io/karpenter/pkg/controllers/nodeclaim/lifecycle"
 
 	"verif/gen"
 	"verif/mon"
@@ -68,7 +72,7 @@ func cases(tier string) int {
 	if tier == "thorough" {
 		return 1200
 	}
-	return 160
+	return 120
 }
 
 // ---- scenario ----
@@ -78,7 +82,8 @@ type scen struct {
 	WorldSeed  int64
 	ScriptSeed int64
 	Policy     string
-	Probe      bool // outside-the-quantifier probe: readiness flaps + deep staleness (diagnostics)
+	Probe      bool     // outside-the-quantifier probe: readiness flaps + deep staleness (diagnostics)
+	Expect     []string // NodeClaim names of the fault-free run (the world must rebuild identically)
 }
 
 type faultSpec struct {
@@ -157,6 +162,9 @@ type exec struct {
 	calls       []string // fault-free run: descriptor of every Karpenter call in order
 	violated    bool
 	crashed     int
+	lc          *lifecycle.Controller // only for the lost-response fault kind (own client wrapper)
+	lostSeen    int
+	lostFired   bool
 	desc        map[string]any
 }
 
@@ -751,6 +759,7 @@ func (x *exec) successesInEpoch(uid types.UID, calls []world.ProviderCall) int {
 
 func (x *exec) restart() {
 	x.e.Restart()
+	x.lc = nil
 	x.epoch++
 	x.crashed++
 	x.epochStarts = append(x.epochStarts, len(x.e.Provider.CallsCopy()))
@@ -800,7 +809,7 @@ func (x *exec) reconcile(cs *claimState, stale int) {
 	}
 	wasPending := cs.capPending
 	var err error
-	panicked, val, stack := mon.Guard(func() { _, err = e.Lifecycle().Reconcile(e.Ctx, snap.DeepCopy()) })
+	panicked, val, stack := mon.Guard(func() { _, err = x.controller().Reconcile(e.Ctx, snap.DeepCopy()) })
 	crashed := false
 	if panicked {
 		if _, ok := val.(world.CrashSentinel); ok {
@@ -913,6 +922,53 @@ func (x *exec) reconcile(cs *claimState, stale int) {
 	}
 }
 
+// controller returns the real lifecycle controller. For the "lost" fault kind it is built (with its real
+// constructor) over a thin wrapper of the intercepted client that lets the k-th API write go through and then
+// reports a timeout to the caller: the write was applied, the response was lost.
+func (x *exec) controller() *lifecycle.Controller {
+	if x.fault == nil || x.fault.Kind != "lost" {
+		return x.e.Lifecycle()
+	}
+	if x.lc != nil {
+		return x.lc
+	}
+	lost := func(err error) error {
+		x.lostSeen++
+		if err != nil {
+			return err
+		}
+		if x.lostSeen == x.fault.K {
+			x.lostFired = true
+			x.tr("%s: write applied, response lost", x.curStep)
+			return apierrors.NewTimeoutError("c14: response lost after the write was applied", 1)
+		}
+		return nil
+	}
+	under := x.e.API.Client.(client.WithWatch)
+	wrapped := interceptor.NewClient(under, interceptor.Funcs{
+		Create: func(ctx context.Context, c client.WithWatch, obj client.Object, opts ...client.CreateOption) error {
+			return lost(c.Create(ctx, obj, opts...))
+		},
+		Update: func(ctx context.Context, c client.WithWatch, obj client.Object, opts ...client.UpdateOption) error {
+			return lost(c.Update(ctx, obj, opts...))
+		},
+		Delete: func(ctx context.Context, c client.WithWatch, obj client.Object, opts ...client.DeleteOption) error {
+			return lost(c.Delete(ctx, obj, opts...))
+		},
+		Patch: func(ctx context.Context, c client.WithWatch, obj client.Object, patch client.Patch, opts ...client.PatchOption) error {
+			return lost(c.Patch(ctx, obj, patch, opts...))
+		},
+		SubResourceUpdate: func(ctx context.Context, c client.Client, sub string, obj client.Object, opts ...client.SubResourceUpdateOption) error {
+			return lost(c.SubResource(sub).Update(ctx, obj, opts...))
+		},
+		SubResourcePatch: func(ctx context.Context, c client.Client, sub string, obj client.Object, patch client.Patch, opts ...client.SubResourcePatchOption) error {
+			return lost(c.SubResource(sub).Patch(ctx, obj, patch, opts...))
+		},
+	})
+	x.lc = lifecycle.NewController(x.e.Clock, wrapped, x.e.Provider, x.e.Recorder, x.e.NPHealth, nil)
+	return x.lc
+}
+
 func dupClass(antecedent string, stale bool) string {
 	switch {
 	case antecedent != "":
@@ -941,6 +997,12 @@ func isWrite(verb, _, _ string) bool {
 func execute(r *mon.Report, sc scen, f *faultSpec) *exec {
 	s, names := build(sc)
 	if len(names) == 0 {
+		return nil
+	}
+	if sc.Expect != nil && strings.Join(names, ",") != strings.Join(sc.Expect, ",") {
+		// Go map iteration inside the scheduler made the pipeline produce different claims: the call index of the
+		// fault-free run does not apply to this world
+		r.Inc("world_rebuild_mismatch_skipped")
 		return nil
 	}
 	e := s.Env
@@ -1014,6 +1076,8 @@ func execute(r *mon.Report, sc scen, f *faultSpec) *exec {
 			x.calls = append(x.calls, verb+":"+kind)
 			return true
 		}}
+	} else if f.Kind == "lost" {
+		wf = &world.Fault{AtCall: 1 << 30, Kind: "500"}
 	} else {
 		wf = &world.Fault{AtCall: f.K, Kind: f.Kind}
 		if f.WritesOnly {
@@ -1073,11 +1137,13 @@ func (x *exec) finish(wf *world.Fault) {
 	r := x.r
 	r.Eval()
 	r.Inc("runs")
-	if x.fault == nil {
+	if x.sc.Probe {
+		r.Inc("runs_probe_outside_quantifier")
+	} else if x.fault == nil {
 		r.Inc("runs_fault_free")
 	} else {
 		r.Inc("runs_fault:" + x.fault.Kind)
-		if wf.Fired {
+		if wf.Fired || x.lostFired {
 			r.Inc("faults_fired:" + x.fault.Kind)
 		} else {
 			r.Inc("faults_not_fired")
@@ -1156,11 +1222,15 @@ func (x *exec) finish(wf *world.Fault) {
 	}
 	r.Sig("fault=%s|%s", tgt, strings.Join(common.SortedKeys(x.sig), ","))
 	r.DistinctAdd("fault_targets", tgt)
-	if x.fault != nil && wf.Fired && r.WantSample() {
+	if x.fault != nil && (wf.Fired || x.lostFired) && r.WantSample() {
 		for _, k := range []string{"bridge:status-not-persisted", "capacity-error-delete-faulted", "recreate-after-restart"} {
 			if x.sig[k] && !sampled[k] {
 				sampled[k] = true
-				r.Sample(map[string]any{"why": k, "scenario": x.desc, "trace": x.trace, "events": x.eventTail(30)})
+				tr := x.trace
+				if len(tr) > 120 {
+					tr = tr[:120]
+				}
+				r.Sample(map[string]any{"why": k, "scenario": x.desc, "trace": tr, "events": x.eventTail(30)})
 				break
 			}
 		}
@@ -1177,6 +1247,10 @@ func run(r *mon.Report, tier string, idx int, rng *rand.Rand) {
 		return
 	}
 	r.Inc("scenarios")
+	sc.Expect = nil
+	for _, c := range base.claims {
+		sc.Expect = append(sc.Expect, c.name)
+	}
 	r.Count("claims_in_scenarios", len(base.claims))
 	r.Count("fault_free_calls_K", len(base.calls))
 	var writes []string
@@ -1201,6 +1275,16 @@ func run(r *mon.Report, tier string, idx int, rng *rand.Rand) {
 	for k := 1; k <= len(writes); k++ {
 		execute(r, sc, &faultSpec{Kind: "crash", K: k, WritesOnly: true, Target: writes[k-1]})
 	}
+	// lost responses: the k-th API write is applied and the caller is told it timed out
+	var apiWrites []string
+	for _, w := range writes {
+		if !strings.HasPrefix(w, "provider-") {
+			apiWrites = append(apiWrites, w)
+		}
+	}
+	for k := 1; k <= len(apiWrites); k++ {
+		execute(r, sc, &faultSpec{Kind: "lost", K: k, WritesOnly: true, Target: apiWrites[k-1]})
+	}
 	// probe outside the quantifier (readiness flaps, deep cache lag): diagnostics only for regressions
 	psc := sc
 	psc.Probe = true
@@ -1210,22 +1294,22 @@ func run(r *mon.Report, tier string, idx int, rng *rand.Rand) {
 func init() {
 	reg.Register(&reg.Prop{
 		ID: "C14", Level: "fault_enumeration",
-		Rule: "each case = generated scenario: world (catalog incl. an extended-resource type, 1-2 NodePools with taints / 0-2 startup taints, 0-1 daemonset) + 1-3 pending pods (half request verif.io/gpu, host-port conflicts force several claims) -> NodeClaims through the real Provisioner.Schedule/Create; per claim a provider error plan {none, generic x1/x2, CreateError, ICE sticky/once, NodeClassNotReady sticky/once} and a kubelet plan (register with/without unregistered taint, not-ready/unreachable/uninitialized taints, zeroed extended resources, Ready at once or later); PRNG-interleaved script of lifecycle reconciles (32% on a monotonically stale snapshot up to 3 stored versions old, 8% on a cache that did not advance at all since the claim's previous reconcile), kubelet steps {register, ready, remove startup taints, remove ephemeral taints, report extended resources} in every order, clock steps; run once fault-free (K calls enumerated), then once per (error kind, call k) and once per crash point k (restart), each followed by <=12 fault-free closing rounds. One evaluation = one run. Non-trivial = a monitor antecedent fired; distinct by (fault kind x faulted call x antecedents/features seen).",
+		Rule:  "each case = generated scenario: world (catalog incl. an extended-resource type, 1-2 NodePools with taints / 0-2 startup taints, 0-1 daemonset) + 1-3 pending pods (half request verif.io/gpu, host-port conflicts force several claims) -> NodeClaims through the real Provisioner.Schedule/Create; per claim a provider error plan {none, generic x1/x2, CreateError, ICE sticky/once, NodeClassNotReady sticky/once} and a kubelet plan (register with/without unregistered taint, not-ready/unreachable/uninitialized taints, zeroed extended resources, Ready at once or later); PRNG-interleaved script of lifecycle reconciles (32% on a monotonically stale snapshot up to 3 stored versions old, 8% on a cache that did not advance at all since the claim's previous reconcile), kubelet steps {register, ready, remove startup taints, remove ephemeral taints, report extended resources} in every order, clock steps; run once fault-free (K calls enumerated), then once per (error kind, call k) [quick: 500, 409 on every API write and provider call; thorough: 500, 409, 404, 429, timeout on every call incl. reads], once per crash point k (CrashSentinel at write k, recovered at the reconcile boundary, Env.Restart()), once per lost response k (API write k applied, caller told it timed out), each followed by <=12 fault-free closing rounds of {kubelet fix-up, fresh reconcile}; plus one probe run outside the quantifier (NotReady flaps, 55% non-advancing cache) whose True->Unknown regressions are diagnostics only. One evaluation = one run. Non-trivial = a monitor antecedent fired; distinct by (fault kind x faulted call x antecedents/features seen).",
 		Cases: cases, Run: run,
 		MinObserved: map[string]int{
-			"provider_create_success":                                        50,
-			"m2_creates_with_finalizer_in_store":                             50,
+			"provider_create_success":                                             50,
+			"m2_creates_with_finalizer_in_store":                                  50,
 			"m1_reconcile_after_create_with_unlaunched_view:status-not-persisted": 10,
-			"m1_reconcile_after_create_with_unlaunched_view:snapshot-lags":   10,
-			"m1_launch_bridged_without_second_create":                        20,
-			"m3_became_true:Launched":                                        50,
-			"m3_became_true:Registered":                                      50,
-			"m3_became_true:Initialized":                                     50,
-			"m3_extended_resource_checks":                                    10,
-			"m4_capacity_errors":                                             20,
-			"m4_deleted_in_same_reconcile":                                   20,
-			"m4_delete_was_the_injected_failure":                             3,
-			"restarts":                                                       20,
+			"m1_reconcile_after_create_with_unlaunched_view:snapshot-lags":        10,
+			"m1_launch_bridged_without_second_create":                             20,
+			"m3_became_true:Launched":                                             50,
+			"m3_became_true:Registered":                                           50,
+			"m3_became_true:Initialized":                                          50,
+			"m3_extended_resource_checks":                                         10,
+			"m4_capacity_errors":                                                  20,
+			"m4_deleted_in_same_reconcile":                                        20,
+			"m4_delete_was_the_injected_failure":                                  3,
+			"restarts":                                                            20,
 		},
 	})
 }
